@@ -19,7 +19,8 @@ the same lossless, compact form - per column, the maximal runs of non-empty cell
     [k0, len, kind, r0, c]   rows k0..k0+len-1 hold the texts  text(kind, r0 + t, c), t = 0..len-1
                              (r0 = 0: the text of this kind does not depend on the row)
 where (kind, r, c) is the unique token with text(kind, r, c) == cell text ("?<text>" if there is none).
-CsvShape!Clauses compares the two.
+CsvShape!Clauses compares the two.  `out.skip` = 1 if the importer reports skipinitialspace (a fact about
+the returned parse options; not used by the specification, only to describe a known finding).
 """
 import csv
 import json
